@@ -39,8 +39,8 @@ type output struct {
 	tag       string
 }
 
-// noCompensationEvery: every k-th chain scenario runs without the sync-cache compensation (0 = never).
-var noCompensationEvery int
+// compensateSyncCache: see the -compensate-sync-cache flag.
+var compensateSyncCache bool
 
 // recorder returns the recorder of the trace file for the given group key (preset + schedule).
 func (o *output) recorder(group string) *beaconrec.Recorder {
@@ -92,13 +92,13 @@ func main() {
 	only := flag.String("only", "", "run only the scenarios whose name contains this string")
 	maxEvents := flag.Int("max-events", 400, "split trace files at this many events")
 	shard := flag.String("shard", "0/1", "i/n: run only the scenarios whose position is i modulo n")
-	noComp := flag.Int("no-compensation-every", 0, "run every k-th chain scenario WITHOUT the sync-cache compensation (0 = never)")
+	comp := flag.Bool("compensate-sync-cache", false, "wrap the state in chain.SyncFixState (reload the context's sync-committee caches at epoch starts); default: zrnt runs unmodified")
 	flag.Parse()
 	var shardI, shardN int
 	if _, err := fmt.Sscanf(*shard, "%d/%d", &shardI, &shardN); err != nil || shardN < 1 || shardI < 0 || shardI >= shardN {
 		fatal(fmt.Errorf("bad -shard %q", *shard))
 	}
-	noCompensationEvery = *noComp
+	compensateSyncCache = *comp
 	if *out == "" {
 		fatal(fmt.Errorf("-out required"))
 	}
